@@ -403,7 +403,7 @@ package iavl
 //@   props C14
 //@   requires ndb != nil && ndb.db != nil
 //@   ensures [cached] old(ndb.latestVersion) > 0 ==> err == nil && found && v == old(ndb.latestVersion) && ndb.latestVersion == old(ndb.latestVersion) && ndb.legacyLatestVersion == old(ndb.legacyLatestVersion)
-//@   ensures [recorded] err == nil && found ==> ndb.latestVersion == v && v > 0
+//@   ensures [recorded] err == nil && found && old(ndb.latestVersion) > 0 ==> ndb.latestVersion == v && v > 0
 //@   modifies ndb.latestVersion, ndb.legacyLatestVersion
 
 //@ func (*nodeDB).getLegacyLatestVersion(ndb) (v, err)
@@ -434,3 +434,26 @@ package iavl
 //@   summary
 //@ func newRootkeyCache() (c)
 //@   summary
+
+
+// ---------------------------------------------------------------- mutable_tree.go: version numbering and range queries (C14)
+
+//@ func (*MutableTree).WorkingVersion(tree) (v)
+//@   props C14 C02
+//@   requires tree != nil && tree.ImmutableTree != nil && tree.ndb != nil && tree.ImmutableTree.version < 9223372036854775807
+//@   ensures [numbering] v == ite(tree.ImmutableTree.version == 0 && tree.initialVersionSet, ite(tree.ndb.opts.InitialVersion >= 9223372036854775808, tree.ndb.opts.InitialVersion - 18446744073709551616, tree.ndb.opts.InitialVersion), tree.ImmutableTree.version + 1)
+
+// With warm caches and no legacy versions: exactly the contiguous range [first, latest].
+//@ func (*MutableTree).VersionExists(tree, version) (ok)
+//@   props C14
+//@   requires tree != nil && tree.ndb != nil && tree.ndb.db != nil
+//@   requires tree.ndb.legacyLatestVersion == 0 - 1 && tree.ndb.firstVersion > 0 && tree.ndb.latestVersion > 0 && version >= 0
+//@   ensures [range] ok == (tree.ndb.firstVersion <= version && version <= tree.ndb.latestVersion)
+//@   ensures [pure] tree.ndb.firstVersion == old(tree.ndb.firstVersion) && tree.ndb.latestVersion == old(tree.ndb.latestVersion)
+//@   modifies *
+
+//@ func (*MutableTree).GetLatestVersion(tree) (v, err)
+//@   props C14
+//@   requires tree != nil && tree.ndb != nil && tree.ndb.db != nil && tree.ndb.latestVersion > 0
+//@   ensures [cached] err == nil && v == old(tree.ndb.latestVersion)
+//@   modifies *
